@@ -1,9 +1,11 @@
 #include <cmr/element.h>
 
+#include "env_internal.h"
+
 #include <stdio.h>
 #include <string.h>
 
-static char elementStringBuffer[32];
+static CMR_THREAD_LOCAL char elementStringBuffer[32];
 
 CMR_EXPORT
 const char* CMRelementString(CMR_ELEMENT element, char* buffer)
